@@ -57,7 +57,7 @@ def relayOp (args : List String) : String :=
     showResult (Relay.attempt cfg s)
   | ["pipe", per, outs] =>
     let l := (outs.splitOn ",").filterMap fun x => match x with
-      | "exit0" => some Relay.PipeOut.exit0 | "fail5" => some .fail5xx | "fail" => some .failOther | "timeout" => some .timeout | _ => none
+      | "exit0" => some Relay.PipeOut.exit0 | "fail5" => some .fail5xx | "fail" => some .failOther | "timeout" => some .timeout | "killed" => some .killed | _ => none
     showResult (Relay.pipeAttempt (per == "1") l)
   | ["http", n, what, status, hdr] =>
     match n.toNat? with
